@@ -152,6 +152,35 @@ func c13(c *Ctx) {
 			}
 			r.Check(bad == "", "PATH", sprintf("%s/always-runs/%s#%d", fkey(fn), sn, ordv[sn]), c.InstrPos(cl), "runs before any allowing return", "the request can be allowed (return at "+bad+") without "+sn+" having run: e.g. an update that keeps QoS and priority class but changes resources or labels is no longer checked")
 		}
+		// the two class immutability validators are not optional on update
+		r.Rule("PATH(update => class immutability): in clusterColocationProfileValidatingPod, for an UPDATE request, validateImmutableQoSClass and validateImmutablePriorityClass are each reached on every path (no feature gate or other condition in front of them; only the koordinator priority LABEL check may be gated)")
+		uf := an.Facts{}
+		for _, b := range fn.Blocks {
+			for _, in := range b.Instrs {
+				if bo, ok := in.(*ssa.BinOp); ok && bo.Op == token.EQL {
+					if s, isC := constString(bo.Y); isC {
+						switch s {
+						case "UPDATE":
+							uf[bo] = an.True
+						case "CREATE", "DELETE", "CONNECT":
+							uf[bo] = an.False
+						}
+					}
+				}
+			}
+		}
+		for _, name := range []string{"validateImmutableQoSClass", "validateImmutablePriorityClass"} {
+			found := false
+			want := name
+			reach := an.Explore(fn, nil, uf, func(in ssa.Instruction) bool {
+				if cl, ok := in.(ssa.CallInstruction); ok && an.ShortCallee(cl.Common()) == want {
+					found = true
+					return true
+				}
+				return false
+			})
+			r.Check(len(uf) > 0 && found && len(reach.Returns()) == 0, "PATH", fkey(fn)+"/update=>"+name, c.Pos(fn.Pos()), "runs for every update", "on an UPDATE the request can be answered without "+name+" (it sits behind a feature gate or another condition): the class can be changed on update")
+		}
 		if agg != nil {
 			// allowed=false iff err != nil: explore with err non-nil
 			reach := an.Explore(fn, an.After(agg), an.Facts{agg.Value(): an.NonNil}, nil)
